@@ -234,8 +234,214 @@ def capacity_cases():
     for depth in (10, 31, 32, 33, 64, 100):
         nest = "".join('<!ENTITY n%d "(&n%d;)">' % (i, i + 1) for i in range(depth)) + '<!ENTITY n%d "bottom">' % depth
         out.append(("entity-nesting-%d" % depth, dtd_doc("<!ELEMENT r ANY>" + nest, "&n0;<e a='&n1;'/>"), b"", dtd_cfgs[:2]))
+    # declared attributes that are PRESENT on tags: the per-scanner counter pool (XMLScanner::getNewUIntPtr: rows of 64, row
+    # table doubling from 2) is used for duplicate detection of declared attributes -> 129+, 257+, 513+ distinct ones
+    for n in (64, 65, 127, 128, 129, 130, 192, 193, 256, 257, 258, 512, 513, 520):
+        names = ["a%d" % i for i in range(n)]
+        atts = " ".join("%s CDATA #IMPLIED" % x for x in names)
+        per = 60
+        tags = "".join("<e %s/>" % " ".join('%s="v"' % x for x in names[i:i + per]) for i in range(0, n, per))
+        out.append(("attpool-dtd-%d" % n, dtd_doc("<!ELEMENT r (e*)><!ELEMENT e EMPTY><!ATTLIST e %s>" % atts, tags + tags), b"",
+                    [("sax2", "I", "always", "-"), ("dom", "D", "always", "-"), ("sax", "I", "never", "n"), ("domls", "D", "auto", "-")]))
+        if n in (65, 129, 130, 257, 513):
+            xa = "".join('<xs:attribute name="%s"/>' % x for x in names)
+            sch = ('<xs:schema xmlns:xs="http://www.w3.org/2001/XMLSchema"><xs:element name="r"><xs:complexType><xs:sequence>'
+                   '<xs:element name="e" maxOccurs="unbounded"><xs:complexType>%s</xs:complexType></xs:element></xs:sequence>'
+                   '</xs:complexType></xs:element></xs:schema>' % xa).encode()
+            out.append(("attpool-xsd-%d" % n, xdoc(tags + tags), sch, [("sax2", "S", "always", "ns"), ("dom", "I", "always", "ns")]))
+    # schema grammar first switched in at a deep element (per-depth element state array of the schema-aware scanners)
+    xs_e = (b'<xs:schema xmlns:xs="http://www.w3.org/2001/XMLSchema" targetNamespace="urn:x" elementFormDefault="qualified">'
+            b'<xs:element name="e" type="xs:string"/></xs:schema>')
+    for n in (14, 15, 16, 17, 30, 31, 32, 33, 40, 63, 64, 65, 130):
+        inner = '<x:e xmlns:x="urn:x" xmlns:xsi="http://www.w3.org/2001/XMLSchema-instance" xsi:schemaLocation="urn:x s.xsd">t</x:e>'
+        out.append(("schema-at-depth-%d" % n, ("<n>" * n + inner + "</n>" * n).encode(), xs_e,
+                    [("dom", "I", "auto", "ns"), ("sax2", "S", "auto", "ns"), ("sax", "I", "always", "ns"), ("domls", "S", "always", "ns")]))
     for n in (31, 32, 33, 39, 40, 41, 49, 50, 51, 63, 64, 65, 100):
         out.append(("depth-%d" % n, ("<e>" * n + "t" + "</e>" * n).encode(), b"", plain_cfgs[:2] + [("sax2", "I", "always", "ns")]))
+    return out
+
+
+def history_cases(rng, thorough):
+    """HISTORIES: one parser object parses 2-4 documents (all scanners / APIs): names of growing and shrinking length,
+    DTD / schema reuse with grammar caching, error documents in between, attribute declarations accumulating across
+    reparses.  yields (kind, api, scanner, val, flags, [(doc, ext), ...])"""
+    apis = ["sax", "sax2", "dom", "domls"]
+    out = []
+
+    def el(name, inner="t", atts=""):
+        return ("<%s%s>%s</%s>" % (name, atts, inner, name)).encode()
+    # element / attribute names whose lengths grow and shrink between the parses (pooled declarations keep name buffers)
+    lens = [1, 3, 8, 9, 16, 17, 24, 40, 100]
+    n_hist = 160 if not thorough else 4000
+    for _ in range(n_hist):
+        k = rng.choice([2, 3, 3, 4])
+        base = rng.choice(["a", "el", "n"])
+        docs = []
+        for i in range(k):
+            L = rng.choice(lens)
+            name = (base * L)[:L]
+            child = (base * rng.choice(lens))[:rng.choice(lens)]
+            d = el(name, el(child, "x", ' %s="1"' % (base * rng.choice(lens))[:rng.choice(lens)]).decode() + "<%s/>" % name)
+            if rng.random() < 0.2:
+                d = d[:rng.randrange(1, len(d))]            # an error document in between
+            docs.append((d, b""))
+        sc = rng.choice(["W", "W", "I", "D", "S"])
+        out.append(("names", rng.choice(apis), sc, rng.choice(["never", "auto"]), rng.choice(["-", "n", "nx"]), docs))
+    # DTD reuse: same / different internal subsets, cached grammar, names of different length for the same declarations
+    for _ in range(50 if not thorough else 1000):
+        k = rng.choice([2, 3, 4])
+        docs = []
+        for i in range(k):
+            L = rng.choice([1, 5, 9, 20, 40])
+            r, c = "r" * L, "c" * rng.choice([1, 9, 30])
+            natt = rng.choice([1, 3, 70])
+            atts = " ".join("a%d_%d CDATA 'd'" % (i, j) for j in range(natt))
+            d = ("<!DOCTYPE %s [<!ELEMENT %s (%s)*><!ELEMENT %s (#PCDATA)><!ATTLIST %s %s><!ENTITY e%d 'v'>]><%s %s><%s>&e%d;</%s><%s/></%s>"
+                 % (r, r, c, c, r, atts, i, r, " ".join('a%d_%d="x"' % (i, j) for j in range(natt)), c, i, c, c, r)).encode()
+            if rng.random() < 0.15:
+                d = d[:rng.randrange(10, len(d))]
+            docs.append((d, b""))
+        out.append(("dtd-reuse", rng.choice(apis), rng.choice(["I", "D", "I", "D", "W"]), rng.choice(["never", "auto", "always"]),
+                    rng.choice(["-", "c", "nc", "x", "cx"]), docs))
+    # schema reuse: same schema document served for every parse, cached or not; instances valid / invalid / other root
+    for _ in range(40 if not thorough else 800):
+        k = rng.choice([2, 3])
+        natt = rng.choice([2, 70, 130])
+        xa = "".join('<xs:attribute name="a%d"/>' % j for j in range(natt))
+        sch = ('<xs:schema xmlns:xs="http://www.w3.org/2001/XMLSchema"><xs:element name="r"><xs:complexType><xs:sequence>'
+               '<xs:element name="e" minOccurs="0" maxOccurs="unbounded" type="xs:int"/></xs:sequence>%s</xs:complexType></xs:element>'
+               '<xs:element name="%s" type="xs:string"/></xs:schema>' % (xa, "other" * rng.choice([1, 4]))).encode()
+        docs = []
+        for i in range(k):
+            root = rng.choice(["r", "r", "other", "otherotherotherother", "zzz"])
+            atts = " ".join('a%d="v"' % j for j in range(0, natt, rng.choice([1, 2])))
+            d = ('<%s xmlns:xsi="http://www.w3.org/2001/XMLSchema-instance" xsi:noNamespaceSchemaLocation="s.xsd" %s>%s</%s>'
+                 % (root, atts if root == "r" else "", "<e>1</e><e>x</e>" if root == "r" else "t", root)).encode()
+            if rng.random() < 0.15:
+                d = d[:rng.randrange(10, len(d))]
+            docs.append((d, sch))
+        out.append(("xsd-reuse", rng.choice(apis), rng.choice(["I", "S"]), rng.choice(["auto", "always"]), rng.choice(["ns", "nsc", "nsfc", "nsx"]), docs))
+    return out
+
+
+XSD_BASES = [
+    # mixed emptiable base + simpleContent restriction with a simpleType child (Errata E1-27), facets, attribute uses
+    """<xs:schema xmlns:xs="http://www.w3.org/2001/XMLSchema">
+ <xs:complexType name="M" mixed="true"><xs:sequence><xs:element name="o" type="xs:string" minOccurs="0"/></xs:sequence><xs:attribute name="ma" type="xs:int"/></xs:complexType>
+ <xs:complexType name="R"><xs:simpleContent><xs:restriction base="M"><xs:simpleType><xs:restriction base="xs:string"><xs:minLength value="1"/></xs:restriction></xs:simpleType><xs:maxLength value="5"/><xs:attribute name="ma" type="xs:int" use="required"/></xs:restriction></xs:simpleContent></xs:complexType>
+ <xs:complexType name="E"><xs:simpleContent><xs:extension base="xs:decimal"><xs:attribute name="u" type="xs:NMTOKEN"/></xs:extension></xs:simpleContent></xs:complexType>
+ <xs:complexType name="E2"><xs:simpleContent><xs:restriction base="E"><xs:maxInclusive value="10"/></xs:restriction></xs:simpleContent></xs:complexType>
+ <xs:element name="r"><xs:complexType><xs:sequence><xs:element name="a" type="R" minOccurs="0"/><xs:element name="b" type="E2" minOccurs="0"/><xs:element name="m" type="M" minOccurs="0"/></xs:sequence></xs:complexType></xs:element>
+</xs:schema>""",
+    # groups, attribute groups, substitution group, abstract type, complexContent extension / restriction, list / union
+    """<xs:schema xmlns:xs="http://www.w3.org/2001/XMLSchema">
+ <xs:group name="G"><xs:choice><xs:element name="g1" type="xs:int"/><xs:element name="g2" type="L"/></xs:choice></xs:group>
+ <xs:attributeGroup name="AG"><xs:attribute name="x" type="xs:ID"/><xs:attribute name="y" type="U" default="1"/><xs:anyAttribute processContents="lax"/></xs:attributeGroup>
+ <xs:simpleType name="L"><xs:list itemType="xs:int"/></xs:simpleType>
+ <xs:simpleType name="U"><xs:union memberTypes="xs:int xs:NCName"/></xs:simpleType>
+ <xs:complexType name="B" abstract="true"><xs:sequence><xs:group ref="G" minOccurs="0" maxOccurs="2"/></xs:sequence><xs:attributeGroup ref="AG"/></xs:complexType>
+ <xs:complexType name="D"><xs:complexContent><xs:extension base="B"><xs:sequence><xs:element name="d" type="xs:date" minOccurs="0"/><xs:any namespace="##other" processContents="skip" minOccurs="0"/></xs:sequence></xs:extension></xs:complexContent></xs:complexType>
+ <xs:complexType name="D2"><xs:complexContent><xs:restriction base="D"><xs:sequence><xs:group ref="G" minOccurs="0" maxOccurs="1"/></xs:sequence></xs:restriction></xs:complexContent></xs:complexType>
+ <xs:element name="head" type="B" abstract="true"/>
+ <xs:element name="sub" type="D" substitutionGroup="head"/>
+ <xs:element name="r"><xs:complexType><xs:sequence><xs:element ref="head" maxOccurs="unbounded"/><xs:element name="z" type="D2" minOccurs="0"/></xs:sequence></xs:complexType>
+  <xs:unique name="UQ"><xs:selector xpath="sub"/><xs:field xpath="@x"/></xs:unique></xs:element>
+</xs:schema>""",
+    # all group, nillable, fixed / default, key / keyref, include of itself through the resolver, notation, redefine-free
+    """<xs:schema xmlns:xs="http://www.w3.org/2001/XMLSchema" xmlns:t="urn:t" targetNamespace="urn:t" elementFormDefault="qualified">
+ <xs:notation name="n" public="p"/>
+ <xs:simpleType name="S"><xs:restriction base="xs:string"><xs:enumeration value="p"/><xs:enumeration value="q"/><xs:pattern value="[pq]"/></xs:restriction></xs:simpleType>
+ <xs:complexType name="A"><xs:all><xs:element name="a1" type="t:S" minOccurs="0"/><xs:element name="a2" type="xs:boolean" nillable="true" default="true"/></xs:all><xs:attribute name="k" type="xs:int" fixed="3"/></xs:complexType>
+ <xs:element name="r"><xs:complexType><xs:sequence><xs:element name="i" type="t:A" maxOccurs="unbounded"/></xs:sequence></xs:complexType>
+  <xs:key name="K"><xs:selector xpath="t:i"/><xs:field xpath="@k"/></xs:key>
+  <xs:keyref name="KR" refer="t:K"><xs:selector xpath="t:i/t:a1"/><xs:field xpath="."/></xs:keyref></xs:element>
+</xs:schema>""",
+]
+XSD_VALUES = ["xs:int", "xs:string", "xs:nosuch", "M", "R", "E", "E2", "B", "D", "D2", "L", "U", "G", "AG", "t:A", "t:S", "t:K", "head", "sub", "0", "1", "-1",
+              "unbounded", "true", "false", "required", "prohibited", "optional", "lax", "skip", "##any", "##other", "", "x y", "qualified",
+              "#all", "extension", "restriction", "r", "."]
+XSD_TAGS = ["element", "attribute", "complexType", "simpleType", "sequence", "choice", "all", "group", "attributeGroup", "simpleContent",
+            "complexContent", "restriction", "extension", "list", "union", "any", "anyAttribute", "key", "keyref", "unique", "selector", "field",
+            "annotation", "maxLength", "enumeration", "include", "import", "redefine", "notation"]
+
+
+def mutate_schema(rng, text):
+    """one or two structural mutations of a schema document (element tree level)"""
+    import xml.etree.ElementTree as ET
+    XS = "http://www.w3.org/2001/XMLSchema"
+    ET.register_namespace("xs", XS)
+    root = ET.fromstring(text)
+    for _ in range(rng.choice([1, 1, 2])):
+        nodes = [(p_, c) for p_ in root.iter() for c in list(p_)]
+        if not nodes:
+            break
+        parent, child = rng.choice(nodes)
+        how = rng.randrange(9)
+        if how == 0:
+            parent.remove(child)                                     # drop one child
+        elif how == 1:
+            parent.insert(rng.randrange(len(parent) + 1), ET.fromstring(ET.tostring(child)))   # duplicate
+        elif how == 2:
+            parent.remove(child)                                     # move to another parent
+            rng.choice(list(root.iter())).append(child)
+        elif how == 3 and child.attrib:
+            k = rng.choice(sorted(child.attrib))                     # wrong attribute value / dangling reference / cycle
+            child.set(k, rng.choice(XSD_VALUES))
+        elif how == 4 and child.attrib:
+            del child.attrib[rng.choice(sorted(child.attrib))]
+        elif how == 5:
+            child.set(rng.choice(["type", "base", "ref", "name", "minOccurs", "maxOccurs", "use", "mixed", "abstract", "substitutionGroup",
+                                  "final", "block", "itemType", "memberTypes", "refer", "xpath", "value", "default", "fixed", "nillable"]),
+                      rng.choice(XSD_VALUES))
+        elif how == 6:
+            child.tag = "{%s}%s" % (XS, rng.choice(XSD_TAGS))        # illegal child kind
+        elif how == 7:
+            sub = list(child)
+            if sub:
+                rng.shuffle(sub)
+                for x in list(child):
+                    child.remove(x)
+                for x in sub:
+                    child.append(x)
+        else:
+            child.text = rng.choice(["text", " ", "<"])
+    out = ET.tostring(root, encoding="unicode")
+    if 'xmlns:t=' not in out and "t:" in out:
+        out = out.replace("<xs:schema ", '<xs:schema xmlns:t="urn:t" ', 1)
+    return out.encode("utf-8")
+
+
+def schema_cases(rng, thorough):
+    """malformed-SCHEMA stream: (kind, instance doc, schema bytes, [(api, scanner, val, flags)])"""
+    out = []
+    insts = [b'<r xmlns:xsi="http://www.w3.org/2001/XMLSchema-instance" xsi:noNamespaceSchemaLocation="s.xsd"><a ma="1">abc</a><b u="k">3</b><m>t<o>x</o></m></r>',
+             b'<r xmlns:xsi="http://www.w3.org/2001/XMLSchema-instance" xsi:noNamespaceSchemaLocation="s.xsd"><sub x="i1"><g1>1</g1><d>2020-01-01</d></sub><z/></r>',
+             b'<t:r xmlns:t="urn:t" xmlns:xsi="http://www.w3.org/2001/XMLSchema-instance" xsi:schemaLocation="urn:t s.xsd"><t:i k="3"><t:a1>p</t:a1><t:a2 xsi:nil="true"/></t:i></t:r>']
+    cfgs = [("sax2", "I", "always", "ns"), ("dom", "S", "always", "nsf"), ("sax", "S", "auto", "ns"), ("domls", "I", "always", "nsf"),
+            ("dom", "I", "auto", "nsx"), ("sax2", "S", "always", "nsfx")]
+    for i, b in enumerate(XSD_BASES):
+        out.append(("schema-valid-%d" % i, insts[i], b.encode(), cfgs[:4]))
+    # the targeted family: every single-child drop of every base (deterministic), then seeded random mutations
+    import xml.etree.ElementTree as ET
+    ET.register_namespace("xs", "http://www.w3.org/2001/XMLSchema")
+    for i, b in enumerate(XSD_BASES):
+        root = ET.fromstring(b)
+        npairs = len([(p_, c) for p_ in root.iter() for c in list(p_)])
+        for k in range(npairs):
+            r2 = ET.fromstring(b)
+            pairs = [(p_, c) for p_ in r2.iter() for c in list(p_)]
+            pairs[k][0].remove(pairs[k][1])
+            t = ET.tostring(r2, encoding="unicode")
+            if i == 2:
+                t = t.replace("<xs:schema ", '<xs:schema xmlns:t="urn:t" ', 1) if "xmlns:t=" not in t else t
+            out.append(("schema-drop-%d" % i, insts[i], t.encode(), [cfgs[k % len(cfgs)]]))
+    for _ in range(260 if not thorough else 20000):
+        i = rng.randrange(len(XSD_BASES))
+        try:
+            m = mutate_schema(rng, XSD_BASES[i])
+        except Exception:
+            continue
+        out.append(("schema-mut-%d" % i, insts[i], m, [rng.choice(cfgs)]))
     return out
 
 
@@ -263,6 +469,13 @@ def gen_cases(ctx, consts):
     for kind, doc, ext, cfgs in capacity_cases():
         for conf in cfgs:
             cases.append(("capacity-" + kind, "parse %s %s %s %s 0 %s %s" % (conf[0], conf[1], conf[2], conf[3], hx(doc), hx(ext))))
+    # 0b. histories: several documents through ONE parser object
+    for kind, api, sc, val, fl, docs in history_cases(rng, thorough):
+        cases.append(("history-" + kind, "hist %s %s %s %s 0 %s" % (api, sc, val, fl, " ".join("%s %s" % (hx(d), hx(e)) for d, e in docs))))
+    # 0c. malformed schemas
+    for kind, doc, sch, cfgs in schema_cases(rng, thorough):
+        for conf in cfgs:
+            cases.append((kind, "parse %s %s %s %s 0 %s %s" % (conf[0], conf[1], conf[2], conf[3], hx(doc), hx(sch))))
     corp = corpus(rng)
     # 1. every corpus document under the full configuration matrix (valid / nearly valid inputs)
     for name, doc, ext, fl in corp:
@@ -283,7 +496,7 @@ def gen_cases(ctx, consts):
             for k in cut[:30 if not thorough else 400]:
                 add("trunc-ext-" + name, [doc], ext[:k], fl + "d")
     # 3. mutations of document and of the external entity
-    n_mut = 1400 if not thorough else 60000
+    n_mut = 800 if not thorough else 50000
     for _ in range(n_mut):
         name, doc, ext, fl = rng.choice(corp)
         which = rng.random()
@@ -435,7 +648,7 @@ def run(ctx):
     import C04 as C4
     rcases = [("F1", C4.F1_WITNESS)] + C4.gen_reader_cases(ctx, consts)
     rcases = [c for c in rcases if c[0] == "F1" or c[0].startswith("pairs")] + \
-             [c for c in rcases if c[0].startswith("rand")][:200] + [c for c in rcases if c[0].startswith("slide")][:12]
+             [c for c in rcases if c[0].startswith("rand")][:120] + [c for c in rcases if c[0].startswith("slide")][:6]
     rreqs = [c[1] for c in rcases]
     ans, status, err = run_watchdog(xh04, rreqs, SAN_ENV)
     ctx.count(len(ans))
@@ -541,7 +754,18 @@ def run(ctx):
             ctx.count()
             f = reqs[pos + k].split()
             cfgs.add((f[1], f[2], f[3], f[4]))
-            if a.startswith("ok 0"):
+            if a.startswith("hist "):
+                parts = a[5:].split(";")
+                if any(x.startswith("FOREIGN") for x in parts):
+                    nviol += 1
+                    ctx.violation("foreign-exception", {"request": reqs[pos + k], "answer": a, "kind": cases[pos + k][0],
+                                                        "what": "exception type outside the documented Xerces exception classes"})
+                else:
+                    outcome["history"] = outcome.get("history", 0) + 1
+                    ctx.count(len(parts) - 1)
+                    if any(not x.startswith("ok 0") for x in parts):
+                        ctx.distinct(reqs[pos + k])
+            elif a.startswith("ok 0"):
                 outcome["ok-clean"] += 1
             elif a.startswith("ok"):
                 outcome["ok-errors"] += 1
@@ -572,7 +796,8 @@ def run(ctx):
         nviol += 1
         what = {"crash": "crash or sanitizer report (ASan/UBSan) while parsing", "hang": "no answer within 10 s"}[status]
         ctx.violation("sanitizer" if status == "crash" else "hang",
-                      {"request": reqs[pos], "kind": cases[pos][0], "status": status, "stderr": err[-5000:], "what": what})
+                      {"request": reqs[pos], "kind": cases[pos][0], "status": status,
+                       "stderr": (err[:3000] + "\n[...]\n" + err[-1500:]) if len(err) > 4500 else err, "what": what})
         pos += 1
     for fid, n in sorted(known_sig.items()):
         f = ctx.find_known(fid)
